@@ -59,6 +59,9 @@ type Params struct {
 
 // Concrete is everything the drivers need to run one world against the real code.
 type Concrete struct {
+	// RotDir, if set, is where root-of-trust bundle files of this world are written: under stable names, padded to one size and with one
+	// modification time, the way a deployment replaces a bundle in place (a history sets it to one directory for all its worlds)
+	RotDir string
 	W     World
 	Q     *Quote
 	Raw   []byte
